@@ -232,9 +232,10 @@ def run_case(case):
                 if multi:
                     f2_ = ds["y2"].values
                     fin_ = np.concatenate([fin_, f2_[np.isfinite(f2_)]])
-                lo_, hi_ = float(fin_.min()), float(fin_.max())
-                w_ = (hi_ - lo_) * case["xlims_frac"]
-                opts["xlims"] = (lo_ + w_, hi_ - w_ / 2)
+                if len(fin_) >= 2 and fin_.min() < fin_.max():
+                    lo_, hi_ = float(fin_.min()), float(fin_.max())
+                    w_ = (hi_ - lo_) * case["xlims_frac"]
+                    opts["xlims"] = (lo_ + w_, hi_ - w_ / 2)
             with under_test(kind):
                 fig = x.histogram(ds, ["y", "y2"] if multi else "y",
                                   z=None if multi else "z", **opts)
